@@ -254,6 +254,25 @@ class XmlHandler:
         """
         raise NotImplementedError("This method must be implemented!")
 
+    def end_element(self, element: Any) -> None:
+        """Forward the end of an element to the parser and free the element.
+
+        The tail of an element is only guaranteed to be complete when
+        the next event arrives, the streaming handlers must call this
+        method right before they process the next event.
+
+        Args:
+            element: The element tree element that ended
+        """
+        self.parser.end(
+            self.queue,
+            self.objects,
+            element.tag,
+            element.text,
+            element.tail,
+        )
+        element.clear()
+
 
 class EventsHandler(XmlHandler):
     """Sax content handler for pre-recorded events."""
